@@ -59,6 +59,10 @@ var searches = map[string]searchFn{}
 var replays = map[string]replayFn{}
 
 func main() {
+	if len(os.Args) == 4 && os.Args[1] == "c16-worker" {
+		fuzzWorker(os.Args[2], os.Args[3])
+		return
+	}
 	if len(os.Args) < 4 {
 		names := []string{}
 		for k := range searches {
